@@ -20,6 +20,7 @@ package security
 
 import (
 	"crypto/md5"
+	"crypto/rand"
 	"crypto/sha1"
 	"encoding/base32"
 	"encoding/base64"
@@ -32,6 +33,16 @@ import (
 
 	"golang.org/x/crypto/pbkdf2"
 )
+
+// NewSecret 生成不可预测的随机串（128 位，十六进制），用于令牌等不能被推算的标识。
+// NewID 是进程内递增计数器，其相邻值会作为会话号等公开给客户端，不能用于令牌。
+func NewSecret() string {
+	var b [16]byte
+	if _, err := rand.Read(b[:]); err != nil {
+		panic(err)
+	}
+	return hex.EncodeToString(b[:])
+}
 
 // ID represents a process-wide unique ID.
 type ID uint64
